@@ -34,6 +34,7 @@ type c19Case struct {
 	Path      bool
 	BeforeErr string // "" | name of the operation whose before-request call fails
 	URLQuery  bool   // the configured server URL carries a query string (e.g. an API key)
+	Split     bool   // the static headers are configured through two WithHTTPHeaders options (with another option in between) instead of one
 	FirstInit int    // 0 = the handshake succeeds at once; else the HTTP status with which the server refuses the first initialize (no session id issued), after which the client initializes again
 }
 
@@ -47,6 +48,11 @@ func c19Cases(tier string) []c19Case {
 				c4 := c
 				c4.URLQuery = true
 				out = append(out, c4)
+			}
+			if c.Static && (mask == 1 || mask == 3 || mask == 15) {
+				c5 := c
+				c5.Split = true
+				out = append(out, c5)
 			}
 			if cl != "ls" && (mask == 0 || mask == 15) {
 				for _, st := range []int{503, 400} {
@@ -69,7 +75,7 @@ func c19Cases(tier string) []c19Case {
 
 func c19Eval(tier string, i int) CaseResult {
 	cs := c19Cases(tier)[i]
-	cr := CaseResult{Desc: fmt.Sprintf("client=%s static=%v before=%v handler=%v path=%v beforeErr=%q firstInit=%d urlQuery=%v", cs.Client, cs.Static, cs.Before, cs.Handler, cs.Path, cs.BeforeErr, cs.FirstInit, cs.URLQuery), Nontrivial: true}
+	cr := CaseResult{Desc: fmt.Sprintf("client=%s static=%v before=%v handler=%v path=%v beforeErr=%q firstInit=%d urlQuery=%v split=%v", cs.Client, cs.Static, cs.Before, cs.Handler, cs.Path, cs.BeforeErr, cs.FirstInit, cs.URLQuery, cs.Split), Nontrivial: true}
 	var viol []explore.Violation
 	obs := &hx.Log{}
 	k := func(s string) string { return fmt.Sprintf("%s:%s", s, cs.Client) }
@@ -96,8 +102,14 @@ func c19Eval(tier string, i int) CaseResult {
 			}
 		}
 		opts := []mcp.ClientOption{mcp.WithClientGetSSEEnabled(true)}
-		if cs.Static {
+		if cs.Static && !cs.Split {
 			opts = append(opts, mcp.WithHTTPHeaders(http.Header{"X-Static": []string{"s1"}, "Authorization": []string{"Bearer tok"}, "X-Multi": []string{"m1", "m2", "m3"}}))
+		}
+		if cs.Static && cs.Split {
+			// the same configuration given piecewise, as an application that collects its options from several places does
+			opts = append(opts, mcp.WithHTTPHeaders(http.Header{"X-Static": []string{"s1"}, "X-Multi": []string{"m1", "m2", "m3"}}),
+				mcp.WithClientLogger(hx.Nop{}),
+				mcp.WithHTTPHeaders(http.Header{"Authorization": []string{"Bearer tok"}}))
 		}
 		beforeCalls := map[string]int{}
 		boom := errors.New("before-request says no")
